@@ -1063,8 +1063,8 @@ pub fn run_c02(ctx: &mut Ctx) {
     corpus(&cfg, &mut |fam, b| c02_one(rep, &mut seen, fam, b));
     rep.floor("accepted", (rep.evaluations / 50).max(1));
     rep.floor("reencoded_identical", (rep.evaluations / 50).max(1));
-    rep.floor("dropped_trailing_marker", 1);
-    rep.floor("dropped_empty_message_payload", 1);
+    // (how often the two permitted differences occur is an observation, not a floor: a parser may
+    // legitimately reject those datagrams instead of accepting and normalising them)
 }
 
 fn c02_one(rep: &mut Report, seen: &mut HashMap<u64, Vec<u8>>, fam: &'static str, b: &[u8]) {
